@@ -336,6 +336,12 @@ func genC06(out, tier string, rng *rand.Rand) {
 						prog = append(prog, Call{Req: Req{Kind: "mutate", Table: concTable, Key: []byte("r1"), Muts: ms}, Now: 7000000})
 					case 1:
 						prog = append(prog, Call{Req: Req{Kind: "mutaterows", Table: concTable, Entries: []Entry{{Key: []byte("r2"), Muts: []Mutation{{Kind: "set", Fam: "cf", Q: []byte("fine"), Ts: 1000, V: []byte("1")}}}, {Key: []byte("r1"), Muts: ms}}}, Now: 7000000})
+						// several entries for the SAME row: a failed entry must leave no trace in a later successful one
+						ok1 := []Mutation{{Kind: "set", Fam: "cf2", Q: []byte("after"), Ts: 1000, V: []byte("2")}}
+						ok0 := []Mutation{{Kind: "set", Fam: "cf2", Q: []byte("before"), Ts: 1000, V: []byte("0")}}
+						p2 := append(smallSetup(), Call{Req: Req{Kind: "mutaterows", Table: concTable, Entries: []Entry{{Key: []byte("r1"), Muts: ok0}, {Key: []byte("r1"), Muts: ms}, {Key: []byte("r1"), Muts: ok1}, {Key: []byte("r2"), Muts: ms}, {Key: []byte("r2"), Muts: ok1}}}, Now: 7000000},
+							Call{Req: Req{Kind: "read", Table: concTable}, Now: 8000000})
+						tasks = append(tasks, Task{en, "atomic", p2})
 					case 2:
 						prog = append(prog, Call{Req: Req{Kind: "cam", Table: concTable, Key: []byte("r1"), TM: ms, FM: []Mutation{{Kind: "delrow"}}}, Now: 7000000})
 					default:
